@@ -28,6 +28,7 @@ func (vm *VM) runFunc(fn *Function, vars []reflect.Value) error {
 			case <-stop:
 			case <-vm.env.ctx.Done():
 				atomic.StoreInt32(&vm.env.done, 1)
+				verifDoneSet()
 			}
 		}()
 	}
@@ -95,6 +96,7 @@ func (vm *VM) run() (Addr, bool) {
 		}
 
 		in := vm.fn.Body[vm.pc]
+		verifStep(vm)
 
 		vm.pc++
 		op, a, b, c = in.Op, in.A, in.B, in.C
@@ -1493,6 +1495,7 @@ func (vm *VM) run() (Addr, bool) {
 		case OpReceive:
 			ch := vm.general(a)
 			var v reflect.Value
+			verifYield(vm, VerifSiteReceive)
 			if done == nil {
 				v, vm.ok = ch.Recv()
 			} else {
@@ -1608,6 +1611,7 @@ func (vm *VM) run() (Addr, bool) {
 			var chosen int
 			var recv reflect.Value
 			var recvOK bool
+			verifYield(vm, VerifSiteSelect)
 			if done == nil || hasDefaultCase {
 				chosen, recv, recvOK = reflect.Select(vm.cases)
 			} else {
@@ -1648,6 +1652,7 @@ func (vm *VM) run() (Addr, bool) {
 			elemType := ch.Type().Elem()
 			v := reflect.New(elemType).Elem()
 			vm.getIntoReflectValue(a, v, op < 0)
+			verifYield(vm, VerifSiteSend)
 			if done == nil {
 				ch.Send(v)
 			} else {
